@@ -144,6 +144,36 @@ def exec_structure(case):
             for bn, val in before[n]["buffers"].items():
                 if not torch.equal(getattr(m1, bn), val):
                     out.fail("structure/ineligible-changed", f"buffer {n!r}.{bn} changed")
+    if case["seed"] % 5 == 1 and not out.failures and eligible and wq is not None:
+        # quantize() AGAIN with other settings, after all or some of the modules were frozen: a (frozen) QLinear still is a Linear,
+        # every selected module ends up with the settings of the LAST call
+        from optimum.quanto import freeze
+        qnames = [n for n in names if n in eligible]
+        for k_, n in enumerate(qnames):
+            if case["seed"] % 2 or k_ % 2 == 0:
+                cut(after[n].freeze)
+        allq = sorted(O.QTALL)
+        wq2 = O.QTALL[allq[(allq.index(case["wq"]) + 1 + case["seed"] % 3) % len(allq)]]
+        aq2 = ACT["qint8"] if aq is None else (None if case["seed"] % 3 else aq)
+        kw2 = {"weights": wq2}
+        if aq2 is not None:
+            kw2["activations"] = aq2
+        if flt is not None:
+            kw2["modules"] = [after[n] for n in names if any(mods[n] is f for f in flt)]
+        r = cut(quantize, model, **kw2)
+        out.klass.append("quantized-again-after-freeze")
+        if isinstance(r, Raised):
+            return out.fail(f"structure/quantize-again-raises:{r.type}", r.text)
+        again = dict(model.named_modules(remove_duplicate=False))
+        for n in qnames:
+            m2 = again.get(n)
+            base = base_class(mods[n])
+            if base is torch.nn.LayerNorm:
+                continue  # (a LayerNorm is only replaced when activations are quantized: the second call may leave it as it is)
+            if not isinstance(m2, QModuleMixin) or m2.weight_qtype != wq2 or m2.activation_qtype != aq2:
+                out.fail(f"structure/{base.__name__}/quantize-again/qtypes", f"{n!r}: after a second quantize(weights={wq2.name}, activations={getattr(aq2, 'name', None)}) following a freeze the module "
+                                                                               f"has weight_qtype {getattr(m2, 'weight_qtype', None)} / activation_qtype {getattr(m2, 'activation_qtype', None)}")
+                break
     if case["seed"] % 6 == 0 and not out.failures:
         # the model handed to quantize() IS an eligible module: the object the caller holds cannot be replaced in place, so the
         # call either refuses (ValueError) or leaves it alone -- in both cases the module still is what it was and still runs
